@@ -41,9 +41,9 @@ type probeBlock struct {
 	name string
 }
 
-func (n *probeBlock) Kind() ast.NodeKind          { return kindProbeBlock }
-func (n *probeBlock) Dump(src []byte, level int)  {}
-func (n *probeBlock) IsRaw() bool                 { return true }
+func (n *probeBlock) Kind() ast.NodeKind         { return kindProbeBlock }
+func (n *probeBlock) Dump(src []byte, level int) {}
+func (n *probeBlock) IsRaw() bool                { return true }
 
 type probeInline struct {
 	ast.BaseInline
@@ -286,13 +286,13 @@ func expectedBlockLine(cs []comp, tr string, builtinPrio int, builtinAccepts boo
 }
 
 var docLines = map[string]string{
-	"at":      "@ probe line\n",
-	"hvalid":  "# probe heading\n",
-	"hbad":    "#probe not a heading\n",
-	"para":    "para text\n",
-	"inl@":    "para a @ b\n",
-	"inl*":    "para a *x* b\n",
-	"plain":   "plain\n",
+	"at":     "@ probe line\n",
+	"hvalid": "# probe heading\n",
+	"hbad":   "#probe not a heading\n",
+	"para":   "para text\n",
+	"inl@":   "para a @ b\n",
+	"inl*":   "para a *x* b\n",
+	"plain":  "plain\n",
 }
 
 func rendererFor(cs []comp, kind string, builtinPrio int) string {
